@@ -16,6 +16,7 @@ import (
 	"sort"
 	"strconv"
 	"strings"
+	"sync/atomic"
 	"testing"
 	"testing/synctest"
 	"time"
@@ -109,6 +110,17 @@ func propTable() []propSpec {
 }
 
 func pathKey(p []string) string { return strings.Join(p, ".") }
+
+// samePlace: two host:port listen addresses that cannot both be bound (same port, not 0, and the
+// same host or one of them every host).
+func samePlace(a, b string) bool {
+	ia, ib := strings.LastIndex(a, ":"), strings.LastIndex(b, ":")
+	if ia < 0 || ib < 0 || a[ia+1:] != b[ib+1:] || a[ia+1:] == "0" {
+		return false
+	}
+	ha, hb := a[:ia], b[:ib]
+	return ha == hb || ha == "" || hb == "" || ha == "0.0.0.0" || hb == "0.0.0.0"
+}
 
 // docValue renders a canonical value as it would appear in an update document.
 func docValue(kind, v string, variant int) any {
@@ -454,6 +466,30 @@ func runCfgPlan(t *testing.T, planAny any, ctl Ctl) *Result {
 			if after("webserver.api_disabled") == "true" && after("webserver.dashboard_disabled") == "false" {
 				if err == nil && st != config.UpdateStatusFailed {
 					res.violate("C18.a", "unworkable-update-accepted: api disabled, dashboard enabled", "update %v was accepted [history: %s]", desc, strings.Join(hist, "; "))
+					for _, k := range keys {
+						base[k] = op.Set[k]
+					}
+				} else {
+					check("refused update")
+					checkFile()
+				}
+				continue
+			}
+			// the other one: proxy and web server (when it runs at all) told to listen on the same port of
+			// the same host, or of all hosts: the second bind fails. It is unworkable both as the running
+			// process sees it (command-line values on top) and as the file would hold it (the next start
+			// without the flags).
+			effective := func(k string) string {
+				if ov, has := override[k]; has {
+					return ov
+				}
+				return after(k)
+			}
+			webRuns := !(after("webserver.api_disabled") == "true" && after("webserver.dashboard_disabled") == "true")
+			if webRuns && (samePlace(after("proxy.listen"), after("webserver.listen")) || samePlace(effective("proxy.listen"), effective("webserver.listen"))) {
+				res.Probes["listen_collision_update"]++
+				if err == nil && st != config.UpdateStatusFailed {
+					res.violate("C18.a", "unworkable-update-accepted: proxy and web server on one port", "update %v was accepted [history: %s]", desc, strings.Join(hist, "; "))
 					for _, k := range keys {
 						base[k] = op.Set[k]
 					}
@@ -983,6 +1019,11 @@ type CompPlan struct {
 	Retry     bool         `json:"retry,omitempty"`      // the change hit by the persist fault is submitted once more, without the fault
 	Hasty     bool         `json:"hasty,omitempty"`      // the change before the faulted one is not given time to be delivered: its notifications are still in flight when the next update is committed and rolled back
 	Rapid     bool         `json:"rapid,omitempty"`      // changes follow one another without waiting for the notifications of the previous one
+	// two operators at once: Changes2 is submitted by a second task while the first submits Changes
+	// (the API serves its requests concurrently). Every outcome must be one that the updates applied
+	// one after the other, in some order, could have produced.
+	Concurrent bool         `json:"concurrent,omitempty"`
+	Changes2   []CompChange `json:"changes2,omitempty"`
 	Pol       zzsim.Policy `json:"pol"`
 }
 
@@ -991,7 +1032,11 @@ var compValidFixed = []string{`{"webserver":{"api_disabled":true,"dashboard_disa
 	`{"cache":{"file":{"dir":"other-cache"}}}`, `{"proxy":{"listen":":7777"}}`, `{"cache":{"max_cache_size":"1B"}}`, `{"cache":{"cleanup_interval":"50ms"}}`,
 	// several logging settings in one update: each has its own handler, and they all rebuild the log writers
 	`{"logging":{"file":"var/alt.log","max_backups":2}}`, `{"logging":{"file":"var/alt2.log","compress":true,"max_backups":1}}`, `{"logging":{"max_size":"2M","compress":true}}`,
-	`{"logging":{"file":"var/alt.log","max_size":"3M","level":"WARN"}}`}
+	`{"logging":{"file":"var/alt.log","max_size":"3M","level":"WARN"}}`,
+	// the workable neighbours of the refused combinations
+	`{"proxy":{"listen":":8081"},"webserver":{"listen":"localhost:8082","api_disabled":false,"dashboard_disabled":false}}`,
+	`{"proxy":{"listen":":8080"},"webserver":{"listen":"localhost:8080","api_disabled":true,"dashboard_disabled":true}}`,
+	`{"cache":{"type":"file","file":{"dir":"var/cache2"}}}`}
 
 var compValid = []string{
 	`{"cache":{"max_cache_size":"%dB"}}`, `{"cache":{"cleanup_interval":"%dms"}}`, `{"cache":{"memory":{"memory_budget_percent":%d}}}`, `{"logging":{"level":"%s"}}`,
@@ -1014,6 +1059,17 @@ var compInvalid = []string{
 	`{"cache":{"max_cache_size":"4096B","cleanup_interval":12}}`, `{"cache":{"cleanup_interval":"250ms","max_cache_size":true}}`, `{"logging":{"level":"DEBUG"},"cache":{"lock_shards":"many"}}`,
 	`{"cache":{"memory":{"memory_budget_percent":40}},"proxy":{"listen":7}}`, `{"cache":{"max_cache_size":"8192B"},"logging":{"level":5.5}}`, `{"cache":{"cleanup_interval":"350ms"},"proxy":{"retry_on_invalid_range":"yes"}}`,
 	`{"logging":{"level":"WARN"},"cache":{"memory":{"memory_budget_percent":"x"}}}`,
+	// the wrong JSON type one level up: a scalar, an array or null where a section is expected, an
+	// object where a setting is expected, and null for a setting (it has no type; read as the zero
+	// value it would switch a flag off or empty a path)
+	`{"cache":"file"}`, `{"logging":[1,2]}`, `{"proxy":null}`, `{"cache":{"file":5}}`, `{"cache":{"max_cache_size":{"value":"1G"}}}`, `{"proxy":{"cache_policy":true}}`,
+	`{"proxy":{"retry_on_range_416":null}}`, `{"logging":{"file":null}}`, `{"proxy":{"upstream_default_https":null},"cache":{"max_cache_size":"4096B"}}`, `{"cache":{"lock_shards":null}}`,
+	`{"cache":{"cleanup_interval":"450ms"},"logging":"DEBUG"}`,
+	// each value is fine on its own, together the next start fails: proxy and dashboard on one port;
+	// a file cache (it empties its directory when it starts) over the directory of the configuration file
+	`{"proxy":{"listen":":8080"},"webserver":{"listen":"localhost:8080","api_disabled":false,"dashboard_disabled":false}}`,
+	`{"proxy":{"listen":"localhost:7070"},"webserver":{"listen":"localhost:7070","api_disabled":false,"dashboard_disabled":false}}`,
+	`{"cache":{"type":"file","file":{"dir":"var"}}}`, `{"cache":{"type":"file","file":{"dir":"./var/"}}}`, `{"cache":{"type":"file","file":{"dir":"."}}}`,
 }
 
 func genCompPlan(r *rand.Rand, faults bool) *CompPlan {
@@ -1070,6 +1126,38 @@ func genCompPlan(r *rand.Rand, faults bool) *CompPlan {
 			// the operator tries the same update again once the disk is writable
 			p.Retry = true
 			p.Changes = append(p.Changes, p.Changes[len(p.Changes)-1])
+		}
+	} else if r.IntN(5) == 0 {
+		p.Concurrent = true
+		p.Destroy, p.Override = "", ""
+		p.Changes = nil
+		same := -1
+		if r.IntN(2) == 0 {
+			same = r.IntN(4)
+		}
+		one := func(refusedOK bool) CompChange {
+			kind := r.IntN(4)
+			if same >= 0 {
+				kind = same
+			}
+			if refusedOK && r.IntN(3) == 0 {
+				return CompChange{Doc: []string{`{"cache":{"max_cache_size":"0B"}}`, `{"cache":{"cleanup_interval":"0s"}}`, `{"logging":{"level":"LOUD"}}`, `{"cache":{"memory":{"memory_budget_percent":101}}}`}[kind], Valid: false}
+			}
+			switch kind {
+			case 0:
+				return CompChange{Doc: fmt.Sprintf(`{"cache":{"max_cache_size":"%dB"}}`, 1000+r.IntN(9)*4096), Valid: true}
+			case 1:
+				return CompChange{Doc: fmt.Sprintf(`{"cache":{"cleanup_interval":"%dms"}}`, 100+r.IntN(9)*250), Valid: true}
+			case 2:
+				return CompChange{Doc: fmt.Sprintf(`{"logging":{"level":"%s"}}`, lvls[r.IntN(4)]), Valid: true}
+			}
+			return CompChange{Doc: fmt.Sprintf(`{"cache":{"memory":{"memory_budget_percent":%d}}}`, 1+r.IntN(100)), Valid: true}
+		}
+		for i := 0; i < 1+r.IntN(2); i++ {
+			p.Changes = append(p.Changes, one(false))
+		}
+		for i := 0; i < 1+r.IntN(2); i++ {
+			p.Changes2 = append(p.Changes2, one(true))
 		}
 	} else if r.IntN(2) == 0 {
 		// back-to-back accepted changes of the same settings
@@ -1133,6 +1221,13 @@ func runCompPlan(t *testing.T, planAny any, ctl Ctl) *Result {
 		sig = append(sig, c.Doc)
 	}
 	history := strings.Join(sig, " ; ")
+	if p.Concurrent {
+		sig = nil
+		for _, c := range p.Changes2 {
+			sig = append(sig, c.Doc)
+		}
+		history += "  ||  " + strings.Join(sig, " ; ")
+	}
 	bubble(t, res, func() {
 		metrics.Global = metrics.NewMetrics()
 		s := zzsim.New(ctl.Seed, racePol(p.Pol))
@@ -1245,6 +1340,7 @@ func runCompPlan(t *testing.T, planAny any, ctl Ctl) *Result {
 			lastMax, lastInt, lastLvl, lastPct := cfg.Cache.MaxCacheSize.Read().Bytes(), cfg.Cache.CleanupInterval.Read().Cast(), cfg.Logging.Level.Read(), cfg.Cache.Memory.MemoryBudgetPercent.Read()
 			startCap := cache.VerifMemoryCap(c)
 			startPct := lastPct
+			start := snapshot()
 			faultIdx := len(p.Changes) - 1
 			if p.Retry {
 				faultIdx--
@@ -1257,6 +1353,120 @@ func runCompPlan(t *testing.T, planAny any, ctl Ctl) *Result {
 				settle()
 				cacheDestroyed = true
 				destroyedState = [3]int64{cache.VerifMaxSize(c), int64(cache.VerifInterval(c)), cache.VerifMemoryCap(c)}
+			}
+			if p.Concurrent {
+				// what each operator was told, in the order of its submissions
+				accepted := [2][]bool{make([]bool, len(p.Changes)), make([]bool, len(p.Changes2))}
+				var doneN atomic.Int32
+				for a, list := range [][]CompChange{p.Changes, p.Changes2} {
+					s.Spawn(fmt.Sprintf("actor:operator-%d", a), func() {
+						for i, ch := range list {
+							var doc map[string]any
+							if err := json.Unmarshal([]byte(ch.Doc), &doc); err != nil {
+								panic("bad plan document: " + ch.Doc)
+							}
+							st, uerr := config.UpdatePartialFromConfig(cfg, doc)
+							accepted[a][i] = uerr == nil && st != config.UpdateStatusFailed
+						}
+						doneN.Add(1)
+					})
+				}
+				for doneN.Load() < 2 {
+					settle()
+				}
+				for i := 0; i < 8; i++ {
+					settle()
+				}
+				res.Probes["concurrent_updates"]++
+				fin := snapshot()
+				res.Evals++
+				// the values each setting may hold now: for each operator the one of its last accepted
+				// update of that setting; the starting value if nobody's update of it was accepted
+				may := map[string]map[string]bool{}
+				for a, list := range [][]CompChange{p.Changes, p.Changes2} {
+					lastOf := map[string]string{}
+					for i, ch := range list {
+						if accepted[a][i] != ch.Valid {
+							if ch.Valid {
+								res.violate("C18.b", "valid-update-rejected (concurrent updates): "+updateClass(ch.Doc), "update %s was rejected while another operator's update was being applied [history: %s]", ch.Doc, history)
+							} else {
+								res.violate("C18.a", "unworkable-update-accepted (concurrent updates): "+updateClass(ch.Doc), "update %s was accepted [history: %s]", ch.Doc, history)
+							}
+						}
+						if !accepted[a][i] || !ch.Valid {
+							continue
+						}
+						var doc map[string]any
+						json.Unmarshal([]byte(ch.Doc), &doc)
+						if v, ok := getPath(doc, []string{"cache", "max_cache_size"}); ok {
+							n, _ := refSize(v.(string))
+							lastOf["cache.max_cache_size"] = strconv.FormatInt(n, 10)
+						}
+						if v, ok := getPath(doc, []string{"cache", "cleanup_interval"}); ok {
+							d, _ := time.ParseDuration(v.(string))
+							lastOf["cache.cleanup_interval"] = strconv.FormatInt(int64(d), 10)
+						}
+						if v, ok := getPath(doc, []string{"logging", "level"}); ok {
+							var l slog.Level
+							l.UnmarshalText([]byte(v.(string)))
+							lastOf["logging.level"] = strconv.Itoa(int(l))
+						}
+						if v, ok := getPath(doc, []string{"cache", "memory", "memory_budget_percent"}); ok {
+							lastOf["cache.memory.memory_budget_percent"] = strconv.Itoa(int(v.(float64)))
+						}
+					}
+					for k, v := range lastOf {
+						if may[k] == nil {
+							may[k] = map[string]bool{}
+						}
+						may[k][v] = true
+					}
+				}
+				var keys []string
+				for k := range start.reads {
+					keys = append(keys, k)
+				}
+				sort.Strings(keys)
+				for _, k := range keys {
+					got := fin.reads[k]
+					if may[k] == nil {
+						if got != start.reads[k] {
+							res.violate("C18.a", "refused-update-had-effects (concurrent updates): "+k, "no accepted update named %s, it went from %s to %s [history: %s]", k, start.reads[k], got, history)
+						}
+						continue
+					}
+					if !may[k][got] {
+						var vs []string
+						for v := range may[k] {
+							vs = append(vs, v)
+						}
+						sort.Strings(vs)
+						res.violate("C18.b", "accepted-update-not-in-force (concurrent updates): "+k, "%s is %s after both operators were told their updates were accepted; their last accepted values are %v (it was %s at the start) [history: %s]", k, got, vs, start.reads[k], history)
+					}
+				}
+				// what is in force is what the next start loads
+				ncfg, lerr := config.LoadOrDefault(path)
+				if lerr != nil {
+					res.violate("C18.b", "accepted-config-does-not-load (concurrent updates)", "LoadOrDefault: %v [history: %s]", lerr, history)
+				} else {
+					for _, ps := range tbl {
+						k := pathKey(ps.Path)
+						if got := ps.read(ncfg); got != fin.reads[k] {
+							res.violate("C18.b", "next-start-loads-other-value (concurrent updates): "+k, "running with %s=%s, the next start loads %s [history: %s]", k, fin.reads[k], got, history)
+						}
+					}
+				}
+				// and the components follow what is in force
+				if fmt.Sprint(fin.maxSize) != fin.reads["cache.max_cache_size"] {
+					res.violate("C19.c", "cache-limit-not-latest (concurrent updates)", "the cache enforces limit %d, the setting in force is %s [history: %s]", fin.maxSize, fin.reads["cache.max_cache_size"], history)
+				}
+				if fmt.Sprint(int64(fin.interval)) != fin.reads["cache.cleanup_interval"] {
+					res.violate("C19.c", "cleanup-interval-not-latest (concurrent updates)", "the janitor uses interval %v, the setting in force is %s ns [history: %s]", fin.interval, fin.reads["cache.cleanup_interval"], history)
+				}
+				if fmt.Sprint(int(fin.level)) != fin.reads["logging.level"] {
+					res.violate("C19.c", "log-level-not-latest (concurrent updates)", "the logger filters at %v, the setting in force is %s [history: %s]", fin.level, fin.reads["logging.level"], history)
+				}
+				return
 			}
 			for i, ch := range p.Changes {
 				if i == len(p.Changes)-1 && p.Destroy != "" {
@@ -1540,7 +1750,8 @@ func runCompPlan(t *testing.T, planAny any, ctl Ctl) *Result {
 							}
 						}
 						if ncfg.Cache.Type.Read() == config.CacheTypeFile {
-							c2 = cache.NewFileCache[CMeta](ncfg, filepath.Join(dir, "cache2"), ncfg.Cache.MaxCacheSize.Read().Bytes(), ncfg.Cache.CleanupInterval.Read().Cast(), ncfg.Cache.LockShards.Read(), ctx2)
+							// in the directory the configuration names (relative ones lie under the run's directory)
+							c2 = cache.NewFileCache[CMeta](ncfg, ncfg.Cache.File.Dir.Read(), ncfg.Cache.MaxCacheSize.Read().Bytes(), ncfg.Cache.CleanupInterval.Read().Cast(), ncfg.Cache.LockShards.Read(), ctx2)
 						} else {
 							c2 = cache.NewMemoryCache[CMeta](ncfg, ncfg.Cache.Memory.MemoryBudgetPercent.Read(), ncfg.Cache.MaxCacheSize.Read().Bytes(), ncfg.Cache.CleanupInterval.Read().Cast(), ncfg.Cache.LockShards.Read(), ctx2)
 						}
@@ -1556,6 +1767,9 @@ func runCompPlan(t *testing.T, planAny any, ctl Ctl) *Result {
 						restartCleanup = nil
 						settle()
 						res.Probes["restart_under_accepted_config"]++
+						if _, err := os.Stat(path); err != nil {
+							res.violate("C18.c", "start-under-accepted-config-deletes-the-config-file", "after a cache was started under the accepted configuration (type %s, cache.file.dir %q) the configuration file is gone: %v [history: %s]", ncfg.Cache.Type.Read(), ncfg.Cache.File.Dir.Read(), err, history)
+						}
 					}()
 				}
 			}
@@ -1665,6 +1879,13 @@ func shrinkCompPlan(planAny any) []any {
 		if len(p.Changes) > 1 {
 			q := *p
 			q.Changes = append(append([]CompChange{}, p.Changes[:i]...), p.Changes[i+1:]...)
+			out = append(out, &q)
+		}
+	}
+	for i := range p.Changes2 {
+		if len(p.Changes2) > 1 {
+			q := *p
+			q.Changes2 = append(append([]CompChange{}, p.Changes2[:i]...), p.Changes2[i+1:]...)
 			out = append(out, &q)
 		}
 	}
